@@ -4,7 +4,7 @@
 // model (DESIGN.md appendix E); the *values* delivered are compared with what
 // the real named accessor returns on the same view.
 #pragma once
-#include "common.hpp"
+#include "c04.hpp"
 
 namespace wire
 {
@@ -354,6 +354,58 @@ inline Result exec_c19(const Plan& plan)
             if(a != b)
             {
                 fail("set-by-tag", "set_by_tag<" + tagname(e.tag) + "> wrote different bytes than the named setter");
+                return res;
+            }
+        }
+    }
+    // ---- (d) cursor forms of by-tag access: the same scripted walk through the named cursor
+    //          accessors and through get_by_tag/set_by_tag(view, ..., cursor) must be identical
+    {
+        std::memcpy(p, f.bytes.data(), (std::size_t)N);
+        sim::Rng wr(fs.tree_seed ^ 0xC19);
+        for(int variant = 0; variant < 3; variant++)
+        {
+            std::vector<Decision> raw;
+            for(int i = 0; i < 300; i++)
+            {
+                Decision d;
+                d.wrapper = variant == 0 ? W_PLAIN : variant == 1 ? (int)wr.below(5) : (i % 2 ? W_INIT : W_DONT_MOVE);
+                d.write = variant == 1 && wr.chance(1, 3);
+                d.split = variant == 1 ? (int)wr.below(3) - 1 : -1;
+                raw.push_back(d);
+            }
+            CursorModel cm{sh, f, raw, false};
+            cm.run();
+            Req wq;
+            wq.msg = fs.msg;
+            wq.p = p;
+            wq.n = (std::size_t)N;
+            wq.target = T_MESSAGE;
+            wq.sub = M_CURSOR_WALK;
+            wq.script = &cm.script;
+            Res named, tagged;
+            wq.arg = 0;
+            Outcome o1 = call_driver(drv, wq, named);
+            wq.arg = 4;
+            Outcome o2 = call_driver(drv, wq, tagged);
+            sim::stats().count("c19.by_tag_cursor_walks");
+            bool same = o1.kind == o2.kind && named.csteps.size() == tagged.csteps.size() && named.cursor_off == tagged.cursor_off && named.size == tagged.size;
+            std::size_t at = 0;
+            for(; same && at < named.csteps.size(); at++)
+            {
+                const CursorStep& x = named.csteps[at];
+                const CursorStep& y = tagged.csteps[at];
+                same = x.cursor_off == y.cursor_off && x.has_bits == y.has_bits && x.bits == y.bits && x.has_addr == y.has_addr && x.addr_off == y.addr_off;
+                if(!same) break;
+            }
+            if(!same)
+            {
+                fail("by-tag-cursor", "a cursor walk through get_by_tag/set_by_tag(view, ..., cursor) differs from the same walk through the named cursor accessors (variant " + std::to_string(variant) + ", first difference at call " + std::to_string(at + 1) + ": cursor " + (at < named.csteps.size() && at < tagged.csteps.size() ? std::to_string(named.csteps[at].cursor_off) + " vs " + std::to_string(tagged.csteps[at].cursor_off) : std::string("n/a")) + ", outcomes " + sim::out_name(o1.kind) + "/" + sim::out_name(o2.kind) + ")");
+                return res;
+            }
+            if(std::memcmp(p, f.bytes.data(), (std::size_t)N) != 0)
+            {
+                fail("by-tag-cursor", "set_by_tag through a cursor changed bytes although the value written is the one already stored");
                 return res;
             }
         }
